@@ -302,8 +302,12 @@ func runC06(w *core.World, r *core.Report) {
 			for op, c := range hcalls {
 				targets[c] = "handler " + core.FuncName(hs[op])
 			}
-			for _, c := range core.CallsTo(run, "vm.opSplit") {
-				targets[c.(ssa.Instruction)] = "opSplit"
+			if od := primitiveDecoder(w, "O"); od != nil {
+				for _, c := range core.Calls(run) {
+					if core.StaticCallee(c) == od {
+						targets[c.(ssa.Instruction)] = "opcode decoder"
+					}
+				}
 			}
 			isT := func(in ssa.Instruction) bool { _, ok := targets[in]; return ok }
 			// from entry
@@ -328,14 +332,22 @@ func runC06(w *core.World, r *core.Report) {
 			r.Floor("R4", "opcode handlers", len(hcalls), 11)
 		}
 	}
-	if ex := anchor(w, r, "engine", "(*DefaultEngine).exec"); ex != nil {
+	roles := resolveEngineRoles(w)
+	if roles.ExecBackend == nil {
+		r.Undecided("R4", "engine exec backend", token.NoPos, "no unexported method of DefaultEngine called by Exec runs the VM")
+	}
+	if ex := roles.ExecBackend; ex != nil {
+		r.Touch(core.QName(ex))
 		runCalls := core.CallsTo(ex, "vm.(*Vm).Run")
-		setCalls := append(core.CallsTo(ex, "engine.(*DefaultEngine).setCode"), core.CallsTo(ex, "state.(*State).SetCode")...)
+		setCalls := core.CallsTo(ex, "state.(*State).SetCode")
+		if roles.SetCode != nil {
+			setCalls = append(setCalls, callsToSet(ex, map[*ssa.Function]bool{roles.SetCode: true})...)
+		}
 		unset, tests := flagTestEdges(ex, fTerm, false)
 		if len(runCalls) == 0 || len(setCalls) == 0 {
-			r.Undecided("R4", "engine.(*DefaultEngine).exec: Run / setCode", ex.Pos(), "cannot find the VM run or the code store in exec")
+			r.Undecided("R4", "engine exec backend: Run / code recorder", ex.Pos(), "cannot find the VM run or the code store in exec")
 		} else if len(tests) == 0 {
-			r.Bad("R4", "engine.(*DefaultEngine).exec: TERMINATE test after run", ex.Pos(), "exec records the remaining code without testing FLAG_TERMINATE")
+			r.Bad("R4", "engine exec backend: TERMINATE test after run", ex.Pos(), "exec records the remaining code without testing FLAG_TERMINATE")
 		} else {
 			cut := core.NewCut().AddEdge(unset...)
 			isSet := func(in ssa.Instruction) bool {
@@ -347,7 +359,7 @@ func runC06(w *core.World, r *core.Report) {
 				return false
 			}
 			in, path := core.Reach(core.After(runCalls[0].(ssa.Instruction)), isSet, cut)
-			r.Check(in == nil, "R4", "engine.(*DefaultEngine).exec: TERMINATE test after run", runCalls[0].Pos(),
+			r.Check(in == nil, "R4", "engine exec backend: TERMINATE test after run", runCalls[0].Pos(),
 				"code is recorded only on the TERMINATE-unset edge", "remaining code is recorded although TERMINATE may be set", w.PathString(path))
 		}
 	}
@@ -355,6 +367,7 @@ func runC06(w *core.World, r *core.Report) {
 	checkDirtyBehindGate(w, r, "R4")
 
 	// ---- R5 ----------------------------------------------------------------------------------
+	labels := roleLabels(w, r)
 	nreset := 0
 	for _, fn := range w.LibFuncs {
 		for _, c := range core.CallsTo(fn, stResetFlag) {
@@ -367,7 +380,7 @@ func runC06(w *core.World, r *core.Report) {
 			}
 			nreset++
 			r.Touch(core.QName(fn))
-			key := core.QName(fn) + ": ResetFlag(FLAG_TERMINATE)"
+			key := label(labels, fn) + ": ResetFlag(FLAG_TERMINATE)"
 			_, isDefer := c.(*ssa.Defer)
 			// (a) no-op: dominated by a TERMINATE-unset edge in the same function
 			unset, tests := flagTestEdges(fn, fTerm, false)
